@@ -371,9 +371,11 @@ pub fn big_records_case(rng: &mut Rng, variant: u64, thorough: bool) -> (Case, b
             c.stat("ic_close_to_zero", 1);
         }
     }
-    c.op("ic".to_string());
     if ok {
+        c.op("ic".to_string());
         c.op("build def 0".to_string());
+    } else {
+        c.op("icover".to_string());
     }
     c.nontrivial = true;
     (c, ok, k)
